@@ -18,6 +18,15 @@ def classify(r):
     if d["type"] == "missing":
         return "roundtrip/%s/not-restored" % s["type"], "entry missing after restore"
     diff = [f for f in MUST.get(s["type"], []) if s[f] != d[f]]
+    if diff == ["xattrs"] and len(s["xattrs"]) == len(d["xattrs"]):
+        # only the NAME of an attribute differs, and only by the replacement of invalid UTF-8 by U+FFFD
+        def mangle(h):
+            return bytes.fromhex(h).decode("utf-8", "replace").encode("utf-8").hex()
+        sx = sorted((mangle(x["n"]), x["v"]) for x in s["xattrs"])
+        dx = sorted((x["n"], x["v"]) for x in d["xattrs"])
+        if sx == dx:
+            return "roundtrip/xattrs/non-utf8-xattr-name-mangled", "xattr name with invalid UTF-8 restored with U+FFFD: %s -> %s" % (
+                [bytes.fromhex(x["n"]) for x in s["xattrs"]], [bytes.fromhex(x["n"]) for x in d["xattrs"]])
     a = r.get("a") or {}
     cls = {"xattrs": a.get("xattr"), "mtime": a.get("mtime"), "perm": a.get("mode"), "content": a.get("content"), "size": a.get("content"),
            "target": a.get("target"), "rdev": a.get("rdev"), "uid": a.get("owner"), "gid": a.get("owner"), "linkgroup": "hardlink",
